@@ -12,6 +12,21 @@
 //	<tokens>    : tokens of <T> alone from lexer.Tokenize, "kind:hexvalue" joined by ",", kind = int(token.Token),
 //	              up to and including the EOF token (whitespace / comment tokens are kept; the model drops them
 //	              exactly like (*Parser).nextToken does).
+//
+// typedump -script: the same input and the same output lines, but every CAST form / :: form is obtained from ONE
+// parser.Parse call over ONE script
+//
+//	SELECT CAST(x AS <T_0>);
+//	SELECT x::<T_0>;
+//	SELECT CAST(x AS <T_1>);
+//	...
+//
+// (statement 2i is the CAST form of case i, statement 2i+1 its :: form; EXPLAIN is taken per statement).  Any state
+// the parser or the lexer carries from one type / one statement to the next shows up as a line that differs from the
+// per-case mode.  The caller passes only cases that parse alone; when the script does not parse (error, panic or a
+// statement count other than 2n) the shortest failing prefix of statements is located by bisection, its last statement
+// is reported as ERR@script / PANIC@script / COUNT@script, and a NEW script (a new Parse call) starts after it; after
+// scriptMaxRestarts such restarts the remaining statements are reported as SKIP.
 package main
 
 import (
@@ -22,6 +37,7 @@ import (
 	"os"
 	"strings"
 
+	"github.com/sqlc-dev/doubleclick/ast"
 	"github.com/sqlc-dev/doubleclick/lexer"
 	"github.com/sqlc-dev/doubleclick/parser"
 )
@@ -63,12 +79,7 @@ func one(sql string) (res string) {
 	if len(stmts) != 1 {
 		return "SHAPE"
 	}
-	out := parser.Explain(stmts[0])
-	if !strings.HasPrefix(out, head) {
-		return "SHAPE"
-	}
-	txt := strings.TrimSuffix(out[len(head):], "\n")
-	return hx(txt)
+	return explainOne(stmts[0])
 }
 
 func toks(t string) (res string) {
@@ -85,7 +96,132 @@ func toks(t string) (res string) {
 	return strings.Join(parts, ",")
 }
 
+const scriptMaxRestarts = 8
+
+// explainOne: the per-statement projection shared by both modes
+func explainOne(st ast.Statement) (res string) {
+	defer func() {
+		if r := recover(); r != nil {
+			res = "PANIC"
+		}
+	}()
+	out := parser.Explain(st)
+	if !strings.HasPrefix(out, head) {
+		return "SHAPE"
+	}
+	return hx(strings.TrimSuffix(out[len(head):], "\n"))
+}
+
+// parseScript parses the statements with a single parser.Parse call; status "" means: parsed without error into
+// exactly len(stmts) statements (res[i] = projection of statement i).
+func parseScript(stmts []string) (res []string, status string) {
+	defer func() {
+		if r := recover(); r != nil {
+			res, status = nil, "PANIC@script"
+		}
+	}()
+	var sb strings.Builder
+	for _, s := range stmts {
+		sb.WriteString(s)
+		sb.WriteString(";\n")
+	}
+	parsed, err := parser.Parse(context.Background(), strings.NewReader(sb.String()))
+	if err != nil {
+		return nil, "ERR@script"
+	}
+	if len(parsed) != len(stmts) {
+		return nil, "COUNT@script"
+	}
+	res = make([]string, len(parsed))
+	for i, st := range parsed {
+		res[i] = explainOne(st)
+	}
+	return res, ""
+}
+
+func runScript(types []string) []string {
+	stmts := make([]string, 0, 2*len(types))
+	for _, t := range types {
+		stmts = append(stmts, "SELECT CAST(x AS "+t+")", "SELECT x::"+t)
+	}
+	n := len(stmts)
+	res := make([]string, n)
+	start, restarts := 0, 0
+	for start < n {
+		r, status := parseScript(stmts[start:])
+		if status == "" {
+			copy(res[start:], r)
+			break
+		}
+		if restarts >= scriptMaxRestarts {
+			for i := start; i < n; i++ {
+				res[i] = "SKIP"
+			}
+			break
+		}
+		restarts++
+		// smallest m >= 1 such that the prefix of m statements fails (the whole rest fails; the empty prefix parses)
+		lo, hi := 1, n-start
+		for lo < hi {
+			mid := (lo + hi) / 2
+			if _, st := parseScript(stmts[start : start+mid]); st == "" {
+				lo = mid + 1
+			} else {
+				hi = mid
+			}
+		}
+		m := lo
+		_, st := parseScript(stmts[start : start+m])
+		if st == "" {
+			st = status // not monotone: blame the statement the bisection ended on with the status of the whole
+		}
+		if m > 1 {
+			if r, st2 := parseScript(stmts[start : start+m-1]); st2 == "" {
+				copy(res[start:], r)
+			} else {
+				for i := start; i < start+m-1; i++ {
+					res[i] = st2
+				}
+			}
+		}
+		res[start+m-1] = st
+		start += m
+	}
+	return res
+}
+
+func mainScript() {
+	in := bufio.NewReaderSize(os.Stdin, 1<<20)
+	out := bufio.NewWriterSize(os.Stdout, 1<<20)
+	defer out.Flush()
+	var hexes, types []string
+	for {
+		line, err := in.ReadString('\n')
+		l := strings.TrimRight(line, "\r\n")
+		if l != "" {
+			t, derr := unhx(l)
+			if derr != nil {
+				fmt.Fprintf(os.Stderr, "typedump -script: bad hex line %d\n", len(hexes)+1)
+				os.Exit(2)
+			}
+			hexes = append(hexes, l)
+			types = append(types, t)
+		}
+		if err != nil {
+			break
+		}
+	}
+	res := runScript(types)
+	for i, l := range hexes {
+		fmt.Fprintf(out, "%s\t%s\t%s\t%s\n", l, res[2*i], res[2*i+1], toks(types[i]))
+	}
+}
+
 func main() {
+	if len(os.Args) > 1 && os.Args[1] == "-script" {
+		mainScript()
+		return
+	}
 	in := bufio.NewReaderSize(os.Stdin, 1<<20)
 	out := bufio.NewWriterSize(os.Stdout, 1<<20)
 	defer out.Flush()
